@@ -123,7 +123,8 @@ def _subtree(family, header, depth, alphabet, prefix, hist):
         for mv in alphabet:
             if _subtree(family, header, depth, alphabet, prefix + [mv], hist): ext = True
     if not ext:
-        r = execute(family, header, prefix, tail=True)
+        r2 = execute(family, header, prefix, tail=True)
+        if r2 is not None: r = r2      # (the second run of the same prefix answers like the first; if it ever does not, keep the trace without the tail)
         hist.append((header, r[0], r[1]))
     return True
 
